@@ -211,6 +211,8 @@ class Resolver:
                     return Target("ext", text, ext="?." + meth)
                 if recv.id in EXTERNAL_RECEIVERS:
                     return Target("ext", text, ext="?." + meth)
+                if func is not None and _local_is_external(prog, func, recv.id):
+                    return Target("ext", text, ext="?." + meth)
                 # x = SomeRepoClass(...) earlier in the same function
                 if func is not None:
                     ctor_cls = _local_ctor_class(prog, func, recv.id)
@@ -236,6 +238,101 @@ class Resolver:
                 return Target("repo", text or ("?." + meth), funcs=list(self._by_name[meth]), by_name=True)
             return Target("ext", text or ("?." + meth), ext="?." + meth)
         return Target("unknown", text or "?")
+
+
+_EXT_ANNOT_HEADS = {"str", "bytes", "int", "float", "bool", "bytearray", "list", "dict", "set", "tuple", "typing", "io", "socket", "ssl",
+                    "configparser", "re", "zipfile", "mailbox", "email", "os", "collections"}
+_EXT_VALUE_FUNCS = {"open", "str", "bytes", "int", "float", "len", "sorted", "list", "dict", "set", "tuple", "repr", "iter", "next",
+                    "enumerate", "zip", "range", "min", "max", "sum", "any", "all", "bool", "bytearray", "frozenset", "reversed", "map", "filter"}
+
+
+def _local_is_external(prog: Program, func: FuncInfo, name: str) -> bool:
+    """Is every binding of the local `name` in func visibly a non-repository object: a parameter annotated with a
+    builtin / typing / io type, the result of open() (builtin or a VFS's), of a standard-library call, of a str/bytes/
+    file method, or a literal?"""
+    cache = getattr(func, "_ext_locals", None)
+    if cache is None:
+        cache = {}
+        func._ext_locals = cache
+    if name in cache:
+        return cache[name]
+    cache[name] = False  # recursion guard
+    mod = func.module
+
+    def ext_annotation(a) -> bool:
+        if a is None:
+            return False
+        if isinstance(a, ast.Constant) and isinstance(a.value, str):
+            try:
+                a = ast.parse(a.value, mode="eval").body
+            except SyntaxError:
+                return False
+        base = a.value if isinstance(a, ast.Subscript) else a
+        d = dotted(base) or ""
+        head = d.split(".")[0]
+        if head in _EXT_ANNOT_HEADS:
+            if head == "typing" and d in ("typing.Optional", "typing.Union", "typing.Type") and isinstance(a, ast.Subscript):
+                inner = a.slice.elts if isinstance(a.slice, ast.Tuple) else [a.slice]
+                return all(ext_annotation(i) or (isinstance(i, ast.Constant) and i.value is None) for i in inner)
+            return d != "typing.Any"
+        res = prog.resolve_dotted(mod, d) if d else None
+        return bool(res) and res[0] == "ext"
+
+    def ext_value(v, depth=0) -> bool:
+        if depth > 4:
+            return False
+        if isinstance(v, (ast.Constant, ast.JoinedStr, ast.List, ast.Dict, ast.Set, ast.Tuple, ast.ListComp, ast.DictComp, ast.SetComp,
+                          ast.GeneratorExp, ast.Compare, ast.BoolOp)) and not isinstance(v, ast.BoolOp):
+            return True
+        if isinstance(v, ast.BinOp):
+            return ext_value(v.left, depth + 1) or ext_value(v.right, depth + 1)
+        if isinstance(v, ast.Subscript):
+            return ext_value(v.value, depth + 1)
+        if isinstance(v, ast.Name):
+            return v.id != name and v.id in _local_names(func) and (v.id in EXTERNAL_RECEIVERS or _local_is_external(prog, func, v.id))
+        if isinstance(v, ast.Call):
+            f = v.func
+            if isinstance(f, ast.Name):
+                if f.id in _EXT_VALUE_FUNCS and f.id not in mod.functions and f.id not in mod.classes:
+                    return True
+                res = prog.resolve_dotted(mod, f.id)
+                return bool(res) and res[0] == "ext"
+            if isinstance(f, ast.Attribute):
+                if f.attr in ("open",) or f.attr in COMMON_NONREPO_METHODS:
+                    return True
+                d = dotted(f) or ""
+                res = prog.resolve_dotted(mod, d) if d and not d.startswith("self") else None
+                return bool(res) and res[0] == "ext"
+        return False
+
+    verdicts = []
+    args = func.node.args
+    for a in args.posonlyargs + args.args + args.kwonlyargs:
+        if a.arg == name:
+            verdicts.append(ext_annotation(a.annotation))
+    for n in ast.walk(func.node):
+        if isinstance(n, ast.Assign):
+            for t in n.targets:
+                if isinstance(t, ast.Name) and t.id == name:
+                    verdicts.append(ext_value(n.value))
+                elif isinstance(t, (ast.Tuple, ast.List)) and any(isinstance(e, ast.Name) and e.id == name for e in ast.walk(t)):
+                    verdicts.append(False)
+        elif isinstance(n, ast.AnnAssign) and isinstance(n.target, ast.Name) and n.target.id == name:
+            verdicts.append(ext_annotation(n.annotation) or (n.value is not None and ext_value(n.value)))
+        elif isinstance(n, (ast.With, ast.AsyncWith)):
+            for it in n.items:
+                if isinstance(it.optional_vars, ast.Name) and it.optional_vars.id == name:
+                    verdicts.append(ext_value(it.context_expr))
+        elif isinstance(n, (ast.For, ast.AsyncFor, ast.comprehension)):
+            if any(isinstance(e, ast.Name) and e.id == name for e in ast.walk(n.target)):
+                verdicts.append(isinstance(n.target, ast.Name) and ext_value(n.iter))
+        elif isinstance(n, ast.NamedExpr) and n.target.id == name:
+            verdicts.append(ext_value(n.value))
+        elif isinstance(n, ast.ExceptHandler) and n.name == name:
+            verdicts.append(True)
+    res = bool(verdicts) and all(verdicts)
+    cache[name] = res
+    return res
 
 
 def _local_ctor_class(prog: Program, func: FuncInfo, name: str) -> Optional[ClassInfo]:
